@@ -79,6 +79,34 @@ fn main() {
         out.push(serde_json::json!({"scenario": format!("sink_fails_at_call_{}", fail_at), "check": "no_write_after_failure", "ok": ok,
             "detail": format!("render result is_err={}, write calls={}, calls after the failure={}", r.is_err(), sink.calls, sink.calls_after_failure)}));
     }
+    // ---- sink: numbers printed straight to the sink (fast paths), with and without HTML escaping
+    for (name, tname, src) in [
+        ("neg_int_html", "p.html", "a{{ n }}b{{ n }}c"),
+        ("whole_float_plain", "p.txt", "a{{ f }}b{{ f }}c"),
+        ("float_html", "p.html", "a{{ f }}b{{ g }}c"),
+    ] {
+        for fail_at in 1..=6usize {
+            let env = Environment::new();
+            let tmpl = env.template_from_named_str(tname, src).unwrap();
+            let mut sink = FailingSink { fail_at, calls: 0, calls_after_failure: 0, failed: false };
+            let r = tmpl.render_captured_to(context! { n => -42, f => 3.0, g => -0.5 }, &mut sink).map(|_| ());
+            // a sink that never reaches its failing call is fine; once it failed: an error and no further call
+            let ok = if sink.failed { r.is_err() && sink.calls_after_failure == 0 } else { r.is_ok() };
+            out.push(serde_json::json!({"scenario": format!("sink_{}_fails_at_call_{}", name, fail_at), "check": "no_write_after_failure", "ok": ok,
+                "detail": format!("sink failed={}, render is_err={}, write calls={}, calls after the failure={}", sink.failed, r.is_err(), sink.calls, sink.calls_after_failure)}));
+        }
+    }
+    // ---- sink: a block rendered through the state API into a sink that fails with BrokenPipe must report it
+    {
+        let mut env = Environment::new();
+        env.add_template("t", "{% block b %}hello {{ 1 }} world{% endblock %}").unwrap();
+        let mut captured = env.get_template("t").unwrap().render_captured(()).unwrap();
+        let mut sink = FailingSink { fail_at: 1, calls: 0, calls_after_failure: 0, failed: false };
+        let r = captured.with_state_mut(|s| s.render_block_to_write("b", &mut sink));
+        let ok = r.is_err() && sink.calls_after_failure == 0;
+        out.push(serde_json::json!({"scenario": "block_to_write_broken_pipe", "check": "no_write_after_failure", "ok": ok,
+            "detail": format!("render_block_to_write into a sink failing with BrokenPipe: is_err={}, calls after the failure={}", r.is_err(), sink.calls_after_failure)}));
+    }
     // ---- printing under HTML auto-escaping: whatever kind of value is printed, no markup character of an
     //      unsafe value reaches the output unescaped; safe strings are written as they are
     {
